@@ -185,7 +185,11 @@ func (s *sess) textOut(kind string) (path string, read func() string) {
 // with a fatal error, which the runner turns into the observation PROCESS-CRASHED of its case.
 const cmdWatchdog = 90 * time.Second
 
-func runCmd(execute func() error) (err error, panicked bool) {
+func runCmd(execute func() error) (err error, panicked bool) { return runCmdThen(execute, nil) }
+
+// runCmdThen: as runCmd; "then" runs right after the command returned, before any finaliser had a
+// chance to close what the command left open.
+func runCmdThen(execute func() error, then func()) (err error, panicked bool) {
 	type res struct {
 		err      error
 		panicked bool
@@ -208,6 +212,9 @@ func runCmd(execute func() error) (err error, panicked bool) {
 		fmt.Fprintln(os.Stderr, "fatal error: command did not return within the watchdog time (hang)")
 		os.Exit(3)
 	}
+	if then != nil {
+		then()
+	}
 	for i := 0; i < 3; i++ {
 		runtime.GC()
 		time.Sleep(2 * time.Millisecond)
@@ -218,6 +225,10 @@ func runCmd(execute func() error) (err error, panicked bool) {
 // srcBaseFor returns the base given to the command: a directory of the case, or the URL of the
 // in-process server (whose root is the run directory) with the path prefix to prepend.
 func (s *sess) srcBaseFor(base string, remote bool) (string, string) {
+	if remote && s.deep {
+		// deep=1: a server whose served directory is the base itself (names may then leave it through "..")
+		return s.serverURLFor(filepath.Join(s.dir, base)), ""
+	}
 	if remote {
 		return s.serverURL(), filepath.Join(filepath.Base(s.dir), base)
 	}
@@ -334,7 +345,7 @@ func init() {
 		}
 		to, readOut := s.textOut(a.str("textout", "file"))
 		c := &cmd.CopyCommand{
-			SrcBase: srcBase, SrcRelPath: filepath.Join(prefix, sr), DestBase: filepath.Join(s.dir, db), DestRelPath: dr,
+			SrcBase: srcBase, SrcRelPath: joinRel(prefix, sr), DestBase: filepath.Join(s.dir, db), DestRelPath: dr,
 			AggregationMethod: wt.AggregationMethod(a.num("m", 2)), XFilesFactor: math.Float32frombits(uint32(hex64(a.str("x", "3f000000")))),
 			ArchiveInfoList: layoutFromCSV(a["layout"]),
 			From:            wt.Timestamp(a.num("from", 0)), Until: wt.Timestamp(a.num("until", 0)),
@@ -343,6 +354,15 @@ func init() {
 		var files []string
 		if hasMeta(sr) {
 			files = s.globRel(sb, sr)
+		}
+		// probe=1 (remote source, one file): the copy is ONE session on its destination -- from the moment it
+		// has opened (or created) the destination until it returns, the destination stays locked, in
+		// particular for the whole time the source is being fetched
+		held := ""
+		if a.num("probe", 0) == 1 && remote {
+			stop := func() {}
+			c.SrcBase, stop = s.probingProxy(filepath.Join(s.dir, db, dr), &held)
+			defer stop()
 		}
 		liveDone := s.startLive(a)
 		t0 := time.Now().Unix()
@@ -355,6 +375,9 @@ func init() {
 		}
 		s.echo(fmt.Sprintf("%s nows=%s files=%s clock=%d,%d%s", strings.Join(tk, " "), csvOrDash(nows), csvOrDash(files), t0, t1, liveAt))
 		s.emit("clicopy", statusOf(err, panicked), recs)
+		if a.num("probe", 0) == 1 && remote {
+			s.obs("clicopy-held %s", held)
+		}
 	}
 	handlers["clidiff"] = func(s *sess, tk []string) {
 		a := parseKV(tk[1:])
@@ -371,11 +394,11 @@ func init() {
 			srcBase = respell(srcBase, a.num("spell", 0))
 		}
 		if dr != "" {
-			dr = filepath.Join(dprefix, dr)
+			dr = joinRel(dprefix, dr)
 		}
 		to, readOut := s.textOut(a.str("textout", "file"))
 		c := &cmd.DiffCommand{
-			SrcBase: srcBase, SrcRelPath: filepath.Join(prefix, sr), DestBase: destBase, DestRelPath: dr,
+			SrcBase: srcBase, SrcRelPath: joinRel(prefix, sr), DestBase: destBase, DestRelPath: dr,
 			From: wt.Timestamp(a.num("from", 0)), Until: wt.Timestamp(a.num("until", 0)),
 			ArchiveID: int(a.num("archive", -1)), TextOut: to,
 		}
@@ -439,13 +462,34 @@ func init() {
 			ArchiveID: int(a.num("archive", -1)), TextOut: to, ShowHeader: a.num("header", 1) == 1,
 		}
 		release := s.holdLock(a.str("hold", ""))
+		// probe=1: sum only reads; when it returns -- with a sum or with an error -- none of the files it
+		// matched is still held (checked before any finaliser could close a forgotten handle)
+		held := -1
+		var probe func()
+		if a.num("probe", 0) == 1 && !remote && a.str("hold", "") == "" {
+			matched, _ := filepath.Glob(filepath.Join(s.dir, a["base"], a["item"], a["src"]))
+			probe = func() {
+				held = 0
+				for _, p := range matched {
+					if st, err := os.Stat(p); err != nil || !st.Mode().IsRegular() {
+						continue
+					}
+					if free, err := flockProbe(p); err == nil && !free {
+						held++
+					}
+				}
+			}
+		}
 		t0 := time.Now().Unix()
-		err, panicked := runCmd(c.Execute)
+		err, panicked := runCmdThen(c.Execute, probe)
 		t1 := time.Now().Unix()
 		release()
 		recs, nows := parseOutput(readOut())
 		s.echo(fmt.Sprintf("%s nows=%s items=%s clock=%d,%d", strings.Join(tk, " "), csvOrDash(nows), itemsOracle(s, a["base"], a["item"], a["src"]), t0, t1))
 		s.emit("clisum", statusOf(err, panicked), recs)
+		if held >= 0 {
+			s.obs("clisum-held %d", held)
+		}
 	}
 	handlers["clisumcopy"] = func(s *sess, tk []string) {
 		a := parseKV(tk[1:])
@@ -511,7 +555,7 @@ func init() {
 		for try := 0; ; try++ {
 			to, readOut := s.textOut(a.str("textout", "file"))
 			c := &cmd.ViewCommand{
-				SrcBase: srcBase, SrcRelPath: filepath.Join(prefix, sr),
+				SrcBase: srcBase, SrcRelPath: joinRel(prefix, sr),
 				From: wt.Timestamp(a.num("from", 0)), Until: wt.Timestamp(a.num("until", 0)),
 				ArchiveID: int(a.num("archive", -1)), ShowHeader: a.num("header", 1) == 1, TextOut: to,
 			}
@@ -536,7 +580,7 @@ func init() {
 		for try := 0; ; try++ {
 			to, readOut := s.textOut(a.str("textout", "file"))
 			c := &cmd.ViewRawCommand{
-				SrcBase: srcBase, SrcRelPath: filepath.Join(prefix, sr),
+				SrcBase: srcBase, SrcRelPath: joinRel(prefix, sr),
 				From: wt.Timestamp(a.num("from", 0)), Until: wt.Timestamp(a.num("until", 0)),
 				ArchiveID: int(a.num("archive", -1)), ShowHeader: a.num("header", 1) == 1, SortsByTime: a.num("sort", 0) == 1, TextOut: to,
 			}
